@@ -8,7 +8,7 @@ for prop in "$@"; do
     id=$prop-$((${OFFSET:-9}+n)); mkdir -p /verif/seeded/$id
     cp $src/patch-$n.diff /verif/seeded/$id/patch.diff
     cp $src/demo-$n.md /verif/seeded/$id/demo.md 2>/dev/null
-    for f in $src/demo-$n-* $src/demo$n*; do [ -f "$f" ] && cp "$f" /verif/seeded/$id/ ; done 2>/dev/null
+    for f in $src/demo-$n-* $src/demo-${n}_* $src/demo$n*; do [ -f "$f" ] && cp "$f" /verif/seeded/$id/ ; done 2>/dev/null
     ids+=($id)
   done
   git -C /repo worktree remove --force ${SRC:-/tmp/seed4}/$prop 2>/dev/null; rm -rf ${SRC:-/tmp/seed4}/$prop
